@@ -11,10 +11,10 @@ LEVEL = 'model_checking'
 BACKENDS = ()
 CHUNK = 4
 
-SEEDS = ['flat', 'h1', 'h2', 'shared', 'yaml']
+SEEDS = ['flat', 'h1', 'h2', 'shared', 'yaml', 'hmod', 'ybase']
 MUTATORS = ['upd', 'matrix', 'addedge', 'run_inplace']
 READS = ['run', 'grf', 'jac', 'get_nodes', 'get_edges_all', 'get_edges_sel', 'get_edge', 'collect_edges',
-         'get_node_template', 'getitem', 'to_yaml', 'deepcopy', 'update_template', 'load_derived']
+         'get_node_template', 'getitem', 'to_yaml', 'deepcopy', 'update_template', 'load_derived', 'derive_nodes']
 
 YAML = """%YAML 1.2
 ---
@@ -109,6 +109,27 @@ def build_seed(seed):
                 f.write(YAML)
         c = CircuitTemplate.from_yaml('ym14/YDerived')
         return c, {'nodes': ['a', 'b', 'cc'], 'edge': ('a/so/x', 'b/to/u'), 'sel': ('all/so/x', 'all/to/u'), 'sop': 'so', 'top': 'to'}
+    if seed == 'ybase':
+        # the base of a derived YAML circuit: loading the derived template must leave it alone
+        if not os.path.exists('ym14.yaml'):
+            with open('ym14.yaml', 'w') as f:
+                f.write(YAML)
+        c = CircuitTemplate.from_yaml('ym14/YBase')
+        return c, {'nodes': ['a', 'b'], 'edge': ('a/so/x', 'b/to/u'), 'sel': ('all/so/x', 'all/to/u'), 'sop': 'so', 'top': 'to'}
+    if seed == 'hmod':
+        # a sub-circuit edge whose template has a second source variable given as a path (a string attribute)
+        from pyrates import EdgeTemplate, OperatorTemplate
+        eop = OperatorTemplate('eop', equations=["m = s_in*(1.0 + g*mod)"],
+                               variables={'m': 'output', 's_in': 'input', 'mod': 'input', 'g': 0.5})
+        et = EdgeTemplate('et', operators=[eop])
+        n = NodeTemplate('n', operators=[so, to])
+        sub = CircuitTemplate('sub', nodes={'a': n, 'b': n},
+                              edges=[('a/so/x', 'b/to/u', et, {'weight': 2.0, 'et/eop/s_in': 'source', 'et/eop/mod': 'b/so/x'})])
+        sub2 = CircuitTemplate('sub2', nodes={'a': n}, edges=[('a/so/x', 'a/to/u', None, {'weight': 0.25})])
+        top = CircuitTemplate('top', circuits={'c1': sub, 'c2': sub2},
+                              edges=[('c1/b/so/x', 'c2/a/to/u', None, {'weight': -1.5})])
+        return top, {'nodes': ['c1/a', 'c1/b', 'c2/a'], 'edge': ('c1/b/so/x', 'c2/a/to/u'),
+                     'sel': ('c1/all/so/x', 'c1/all/to/u'), 'sop': 'so', 'top': 'to'}
     raise ValueError(seed)
 
 
@@ -171,6 +192,19 @@ def read_op(c, info, r, k):
         c.update_template()
         c.update_template(edges=[(info['edge'][0], info['edge'][1], None, {'weight': 9.0})])
         return None
+    if r == 'derive_nodes':
+        # deriving a circuit with additional / replaced nodes (or sub-circuits) returns a new template
+        from pyrates import NodeTemplate, CircuitTemplate
+        so, to = ops_lib()
+        extra = NodeTemplate('extra', operators={so: {'k': 4.5}})
+        if c.circuits:
+            c.update_template(circuits={'zz': CircuitTemplate('zsub', nodes={'q': extra})})
+            first = list(c.circuits)[0]
+            c.update_template(circuits={first: CircuitTemplate('zsub', nodes={'q': extra})})
+        else:
+            c.update_template(nodes={'zz': extra})
+            c.update_template(nodes={n0: extra})
+        return None
     if r == 'load_derived':
         from pyrates import CircuitTemplate
         if not os.path.exists('ym14.yaml'):
@@ -206,7 +240,8 @@ def cases(tier, seed):
                 reads_all = [rs for r in range(1, R + 1) for rs in itertools.product(READS, repeat=r)]
                 if tier == 'quick' and m >= 1:
                     # after a mutator: all single operations, pairs over the operations that touch shared structure
-                    core = ['run', 'get_edges_all', 'collect_edges', 'to_yaml', 'deepcopy', 'update_template']
+                    core = ['run', 'get_edges_all', 'collect_edges', 'to_yaml', 'deepcopy', 'update_template',
+                            'derive_nodes']
                     reads_all = [(r,) for r in READS] + list(itertools.product(core, repeat=2))
                 if tier != 'quick' and m <= 1:
                     reads_all += [rs for rs in itertools.product(['run', 'get_edges_all', 'to_yaml', 'deepcopy',
@@ -217,8 +252,8 @@ def cases(tier, seed):
 
 
 def describe(tier, seed):
-    return {'rule': 'seeds {flat, depth-1, depth-2, shared operators with per-node overrides, YAML-derived} x every sequence of '
-                    '<=M legitimate mutators x every sequence of <=2 (quick: pairs after a mutator over a 6-operation core; thorough: 3 on a sub-alphabet) of the 14 listed read-only / '
+    return {'rule': 'seeds {flat, depth-1, depth-2, shared operators with per-node overrides, YAML-derived, the YAML base of a derived circuit, depth-1 with a path-valued edge attribute inside a sub-circuit} x every sequence of '
+                    '<=M legitimate mutators x every sequence of <=2 (quick: pairs after a mutator over a 7-operation core; thorough: 3 on a sub-alphabet) of the 15 listed read-only / '
                     'copy-making operations; invariant after every read op: canonical dump of the template (equations, '
                     'declared values, per-node variations, edges incl. attribute dicts, edge map, object sharing) unchanged; '
                     'at the end the vector field equals that of a pristine twin and two consecutive run(in_place=False) '
